@@ -136,6 +136,7 @@ func c14RunBytes(c *core.Ctx, h *c14Helper, b []byte) {
 	if h.max > 0 && len(b) > h.max {
 		return
 	}
+	c.Distinct(core.Hash64(h.name, b), len(b) > h.min && len(b) >= 2)
 	below := len(b) < h.min
 	in := append([]byte{}, b...)
 	pi := core.Try(func() { h.fn(in) })
@@ -152,6 +153,7 @@ func c14RunBytes(c *core.Ctx, h *c14Helper, b []byte) {
 }
 
 func c14RunText(c *core.Ctx, h *c14Helper, s string) {
+	c.Distinct(core.Hash64(h.name, "text", s), len(s) >= 2)
 	pi := core.Try(func() { h.text(s) })
 	if pi != nil {
 		c.FailCase(h.name+"|"+pi.Key(), fmt.Sprintf("%s(%q) panics: %s", h.name, s, pi.Msg), "helper", c14Case{Helper: h.name, Text: s, IsText: true})
@@ -455,6 +457,6 @@ func init() {
 		Assumptions: []string{
 			"element-typed helpers (MobileIdentity5GS getters: >= 4 octets, DNN: >= 1, fixed-size time elements) are judged on decoder-deliverable lengths only",
 		},
-		Finish: func(m *core.Merged, cov map[string]any) { cov["distinct_nontrivial"] = m.Counters["evaluations"] },
+		Finish: finishDistinct("distinct by (helper, input octets / text); non-trivial = the input is longer than the helper's first length guard (more than the decoder minimum and at least two octets)"),
 	})
 }
